@@ -133,86 +133,107 @@ Theorem C12_no_cross_trace_attribution_search : forall winS winE recs recs' t,
 Proof. exact no_cross_trace_attribution_search. Qed.
 Print Assumptions C12_no_cross_trace_attribution_search.
 
-(* Full statement: "trace search lists each trace rooted in the time window exactly once with its
-   root service and operation, span count and error-span count".  The faithful model violates it
-   in two ways (both CONFIRMED on the real code, see the _refuted theorems), so the proved
-   variant carries two guards: all page requests see the group-by buckets in the same order
-   [buckets], and no trace has root spans with several start or end times. *)
-Theorem C12_search_lists_each_trace_once_guarded : forall winS winE recs buckets n,
-  NoDup buckets -> (length buckets <= n * TRACE_PAGE_LIMIT)%nat ->
-  existsb (aborts winS winE recs) buckets = false ->
-  (forall p, search_traces winS winE recs buckets p
-             = Some (flat_map (summarise winS winE recs) (page_ids buckets p))) /\
-  let listed := flat_map (fun p => flat_map (summarise winS winE recs) (page_ids buckets p)) (seq 1 n) in
-  map ts_id listed = filter (listable winS winE recs) buckets /\
+(* Full statement, for ALL span lists: "trace search lists each trace rooted in the time window exactly
+   once with its root service and operation, span count and error-span count".  Every page request p
+   gets the group-by buckets in its own arbitrary order [bo p] (the engine's order differs from request
+   to request); the handler sorts them by trace id before slicing, so the pages 1..n together list
+   exactly the listable traces (single-valued root attributes, root inside the window), each once.
+   A trace whose root spans have several start/end times, services or operations is left out (the
+   property text allows a partial view for "several roots"); it no longer affects the other traces. *)
+Theorem C12_search_lists_each_trace_once : forall winS winE recs (bo : nat -> list str) n,
+  (forall p, Permutation (bo p) (distinct_traces recs)) -> NoDup (distinct_traces recs) ->
+  (length (distinct_traces recs) <= n * TRACE_PAGE_LIMIT)%nat ->
+  let listed := flat_map (fun p => search_traces winS winE recs (bo p) p) (seq 1 n) in
+  map ts_id listed = filter (listable winS winE recs) (str_sort (distinct_traces recs)) /\
   NoDup (map ts_id listed) /\
+  (forall t, In t (map ts_id listed) <-> In t (map sp_trace recs) /\ listable winS winE recs t = true) /\
   forall s, In s listed ->
     root_info_of winS winE recs (ts_id s) = ROk (ts_start s) (ts_end s) (ts_service s) (ts_name s) /\
     ts_count s = count_if (of_trace (ts_id s)) recs /\
     ts_errs s = count_if (fun x => of_trace (ts_id s) x && is_error x) recs.
-Proof. exact search_lists_each_trace_once_guarded. Qed.
-Print Assumptions C12_search_lists_each_trace_once_guarded.
+Proof. exact search_lists_each_trace_once. Qed.
+Print Assumptions C12_search_lists_each_trace_once.
 
-Example C12_search_guard_satisfiable :
-  existsb (aborts 0 1 w_51) (distinct_traces w_51) = false /\ length (distinct_traces w_51) = 51%nat.
-Proof. vm_compute. split; reflexivity. Qed.
+(* the NoDup premise is a fact about [distinct_traces], not an assumption on the input *)
+Theorem C12_distinct_traces_nodup : forall recs, NoDup (distinct_traces recs).
+Proof. exact distinct_traces_nodup. Qed.
+Print Assumptions C12_distinct_traces_nodup.
 
-(* CONFIRMED: the bucket order is the iteration order of a Go map and differs between the
-   requests for page 1 and page 2: one listable trace appears twice, another one never. *)
-Theorem C12_search_pages_refuted :
+(* whatever order the engine returns the buckets in, the handler slices the same sequence *)
+Theorem C12_bucket_order_irrelevant : forall winS winE recs b1 b2 p,
+  Permutation b1 b2 -> search_traces winS winE recs b1 p = search_traces winS winE recs b2 p.
+Proof. exact bucket_order_irrelevant. Qed.
+Print Assumptions C12_bucket_order_irrelevant.
+
+(* PRE-FIX documentation (about [search_traces_prefix], the handler before fixes
+   C12-search-pages-sorted-trace-ids and C12-search-skip-multi-root-trace).
+   The buckets were sliced in the order of the response, which is the iteration order of a Go map and
+   differed between the requests for page 1 and page 2: one listable trace appeared twice, another
+   never (the fixed model lists both exactly once for the same two orders). *)
+Theorem C12_prefix_search_pages_refuted :
   exists recs b1 b2 t_twice t_never,
     Permutation b1 b2 /\ NoDup b1 /\ b1 = distinct_traces recs /\
     listable 0 1 recs t_twice = true /\ listable 0 1 recs t_never = true /\
-    match search_traces 0 1 recs b1 1, search_traces 0 1 recs b2 2 with
+    match search_traces_prefix 0 1 recs b1 1, search_traces_prefix 0 1 recs b2 2 with
     | Some p1, Some p2 =>
       count_if (fun s => str_eqb (ts_id s) t_twice) (p1 ++ p2) = 2 /\
       count_if (fun s => str_eqb (ts_id s) t_never) (p1 ++ p2) = 0
     | _, _ => False
-    end.
-Proof. exact search_pages_refuted. Qed.
-Print Assumptions C12_search_pages_refuted.
+    end /\
+    let p12 := search_traces 0 1 recs b1 1 ++ search_traces 0 1 recs b2 2 in
+    count_if (fun s => str_eqb (ts_id s) t_twice) p12 = 1 /\ count_if (fun s => str_eqb (ts_id s) t_never) p12 = 1.
+Proof. exact prefix_search_pages_refuted. Qed.
+Print Assumptions C12_prefix_search_pages_refuted.
 
-(* CONFIRMED: one trace with two root spans that start at different times turns the answer for
-   the whole page into HTTP 500; the well-formed trace next to it is not listed. *)
-Theorem C12_search_abort_refuted :
-  exists recs t, listable 0 1 recs t = true /\ search_traces 0 1 recs (distinct_traces recs) 1 = None.
-Proof. exact search_abort_refuted. Qed.
-Print Assumptions C12_search_abort_refuted.
+(* One trace with two root spans that start at different times turned the answer for the whole page
+   into HTTP 500; the well-formed trace next to it was not listed (it is now). *)
+Theorem C12_prefix_search_abort_refuted :
+  exists recs t, listable 0 1 recs t = true /\
+    search_traces_prefix 0 1 recs (distinct_traces recs) 1 = None /\
+    map ts_id (search_traces 0 1 recs (distinct_traces recs) 1) = [t].
+Proof. exact prefix_search_abort_refuted. Qed.
+Print Assumptions C12_prefix_search_abort_refuted.
 
 (* ------------------------------------------------------------------------------------ *)
 (* service dependency graph                                                              *)
 (* ------------------------------------------------------------------------------------ *)
-(* Full statement: "the service dependency graph counts exactly the parent-child span pairs that
-   cross services":  forall recs a b, a <> b -> dep_count (dep_graph DEFAULT_PAGE recs) (a,b) = cross_pairs recs a b.
-   The faithful model violates it (two CONFIRMED defects, refuted below); proved with the exact
-   guards: the window holds at most one result page of spans, span ids are unique, and no parent
-   id names a span of another trace. *)
-Theorem C12_dep_graph_counts_exact_guarded : forall page recs a b,
-  (length recs <= page)%nat -> NoDup (map sp_id recs) -> same_trace_parents recs = true -> a <> b ->
-  dep_count (dep_graph page recs) (a, b) = cross_pairs recs a b.
-Proof. exact dep_graph_counts_exact_guarded. Qed.
-Print Assumptions C12_dep_graph_counts_exact_guarded.
+(* Full statement: "the service dependency graph counts exactly the parent-child span pairs that cross
+   services".  The handler reads the whole window (pages of 1000 until an empty page) and looks a
+   parent up within the span's own trace, so for ALL record lists in which no (trace id, span id)
+   pair is repeated every off-diagonal cell is the exact number of (child, parent) pairs of one trace
+   crossing those two services.  (The records are what the engine's pages deliver; with more than 1000
+   spans its from/size pages can overlap — finding paging_timestamp_ties of C05, still open — and then
+   the premise fails.) *)
+Theorem C12_dep_graph_counts_exact : forall recs a b,
+  NoDup (map span_key recs) -> a <> b ->
+  dep_count (dep_graph recs) (a, b) = cross_pairs recs a b.
+Proof. exact dep_graph_counts_exact. Qed.
+Print Assumptions C12_dep_graph_counts_exact.
 
-Example C12_dep_guard_satisfiable :
-  (length (firstn 100 w_150) <= DEFAULT_PAGE)%nat /\ same_trace_parents (firstn 100 w_150) = true /\
-  dep_count (dep_graph DEFAULT_PAGE (firstn 100 w_150)) ([65], [66]) = 50 /\ cross_pairs (firstn 100 w_150) [65] [66] = 50.
-Proof. split; [apply Nat.leb_le; vm_compute; reflexivity|]. vm_compute. repeat split; reflexivity. Qed.
+Theorem C12_span_key_injective : forall t i t' i', skey t i = skey t' i' <-> t = t' /\ i = i'.
+Proof. exact skey_inj. Qed.
+Print Assumptions C12_span_key_injective.
 
-(* CONFIRMED: the generated query carries no size, so only the first 100 rows are seen:
-   150 traces A -> B (300 spans) give A -> B = 50. *)
-Theorem C12_dep_graph_page_refuted :
-  exists recs, NoDup (map sp_id recs) /\ same_trace_parents recs = true /\ length recs = 300%nat /\
-    cross_pairs recs [65] [66] = 150 /\ dep_count (dep_graph DEFAULT_PAGE recs) ([65], [66]) = 50.
-Proof. exact dep_graph_page_refuted. Qed.
-Print Assumptions C12_dep_graph_page_refuted.
+(* PRE-FIX documentation (about [dep_graph_prefix], the handler before fixes
+   C12-depgraph-all-pages and C12-parent-lookup-within-trace).
+   The generated query carried no size, so only the first 100 rows were seen:
+   150 traces A -> B (300 spans) gave A -> B = 50 (the fixed model: 150). *)
+Theorem C12_prefix_dep_graph_page_refuted :
+  exists recs, NoDup (map span_key recs) /\ length recs = 300%nat /\
+    cross_pairs recs [65] [66] = 150 /\ dep_count (dep_graph_prefix DEFAULT_PAGE recs) ([65], [66]) = 50 /\
+    dep_count (dep_graph recs) ([65], [66]) = 150.
+Proof. exact prefix_dep_graph_page_refuted. Qed.
+Print Assumptions C12_prefix_dep_graph_page_refuted.
 
-(* CONFIRMED: spans are joined to parents by span id alone, so a span that names a parent id
-   existing only in ANOTHER trace produces an edge no trace contains. *)
-Theorem C12_dep_graph_cross_trace_refuted :
-  exists recs, NoDup (map sp_id recs) /\ (length recs <= DEFAULT_PAGE)%nat /\
-    cross_pairs recs [88;50] [89;50] = 0 /\ dep_count (dep_graph DEFAULT_PAGE recs) ([88;50], [89;50]) = 1.
-Proof. exact dep_graph_cross_trace_refuted. Qed.
-Print Assumptions C12_dep_graph_cross_trace_refuted.
+(* Spans were joined to parents by span id alone, so a span naming a parent id that exists only in
+   ANOTHER trace produced an edge no trace contains (the fixed model: no edge). *)
+Theorem C12_prefix_dep_graph_cross_trace_refuted :
+  exists recs, NoDup (map span_key recs) /\ (length recs <= DEFAULT_PAGE)%nat /\
+    cross_pairs recs [88;50] [89;50] = 0 /\
+    dep_count (dep_graph_prefix DEFAULT_PAGE recs) ([88;50], [89;50]) = 1 /\
+    dep_count (dep_graph recs) ([88;50], [89;50]) = 0.
+Proof. exact prefix_dep_graph_cross_trace_refuted. Qed.
+Print Assumptions C12_prefix_dep_graph_cross_trace_refuted.
 
 (* ------------------------------------------------------------------------------------ *)
 (* percentiles and RED metrics                                                           *)
@@ -248,11 +269,12 @@ Proof. exact ms_bounded. Qed.
 Print Assumptions C12_red_durations_bounded.
 
 (* For every service: the stored RED record is computed from exactly that service's entry spans
-   (no parent id, or no span with that id in the same service): rate = count/60, error rate =
+   (no parent id, or no span of its trace with that id in the same service): rate = count/60, error rate =
    100*errors/count, p50/p90/p95/p99 = interpolated percentiles of their sorted ms durations.
-   Hypotheses: unique span ids (the code joins by span id), durations are uint64. *)
+   Hypotheses: no (trace id, span id) pair is repeated (parents are looked up within the span's own
+   trace), durations are uint64. *)
 Theorem C12_red_metrics_exact : forall recs svc,
-  NoDup (map sp_id recs) -> Forall (fun s => sp_dur s < pow2_64) recs ->
+  NoDup (map span_key recs) -> Forall (fun s => sp_dur s < pow2_64) recs ->
   let es := filter (fun s => entry_spec recs s && str_eqb (sp_service s) svc) recs in
   let ds := n_sort (map (fun s => sp_dur s / 1000000) es) in
   lookup svc (red_metrics recs) =
